@@ -196,3 +196,7 @@
          ; a king moving two files is one of the four castling moves with its rook in the corner
          (=> (and (= pc #x06) (= (absd (fileOf f) (fileOf t)) #x02)) (castlePattern p f t))
          (=> (= pc #x06) (bvule (absd (fileOf f) (fileOf t)) #x02))))))
+
+; the position without its two move counters (legality and validity do not depend on them: lemma clocksIrrelevant)
+(define-fun noClocks ((p Pos)) Pos
+  (mkPos (pP p) (pN p) (pB p) (pR p) (pQ p) (pK p) (cW p) (cB p) (stm p) (ep p) (cas p) #x00 #x0000000000000000))
